@@ -506,3 +506,73 @@ Proof.
   - destruct s'; now inversion H.
   - inversion H; subst. eapply entries_exn; eauto.
 Qed.
+
+(* ---------- readGraph / writeGraph ---------- *)
+Definition same_but_name (G : iograph) (nm : gt_str) : iograph :=
+  mkIOG (io_kind G) nm (io_n G) (io_r G) (io_edges G).
+
+(* a file declared acyclic is accepted exactly when the same file read as a directed graph has increasing edges only *)
+Theorem dag_accept hd f text G :
+  gio_read_graph hd TDag f text = GOk G <->
+  gio_read_graph hd TDigraph f text = GOk G /\ (forall u v, In (u, v) (io_edges G) -> u < v).
+Proof.
+  unfold gio_read_graph. cbn [gio_supported gio_kind_of].
+  destruct (negb (existsb (gio_fmt_eqb f) ([FKthlist; FGml] ++ (if hd then [FDot] else []) ++ [FDimacs]))); [split; [discriminate|intros [H _]; discriminate]|].
+  destruct (match f with FKthlist => gio_read_kth KDirected text | FDimacs => gio_read_dimacs KDirected text
+                    | FMatrix => gio_read_matrix text | _ => GRaise ENotModelled end) as [G1|e]; cbn [gio_bind].
+  - rewrite <- is_dag_spec. split.
+    + destruct (gio_is_dag G1) eqn:E; [|discriminate]. intros H. inversion H; subst. auto.
+    + intros [H Hd]. inversion H; subst. rewrite Hd. reflexivity.
+  - split; [discriminate|intros [H _]; discriminate].
+Qed.
+
+Theorem dag_reject hd f text G : gio_read_graph hd TDigraph f text = GOk G ->
+  (exists u v, In (u, v) (io_edges G) /\ v <= u) -> gio_read_graph hd TDag f text = GRaise EValueError.
+Proof.
+  unfold gio_read_graph. cbn [gio_supported gio_kind_of].
+  destruct (negb (existsb (gio_fmt_eqb f) ([FKthlist; FGml] ++ (if hd then [FDot] else []) ++ [FDimacs]))); [discriminate|].
+  destruct (match f with FKthlist => gio_read_kth KDirected text | FDimacs => gio_read_dimacs KDirected text
+                    | FMatrix => gio_read_matrix text | _ => GRaise ENotModelled end) as [G1|e]; cbn [gio_bind]; [|discriminate].
+  intros H (u & v & Hin & Hle). inversion H; subst. destruct (gio_is_dag G) eqn:E; [|reflexivity].
+  rewrite is_dag_spec in E. apply E in Hin. lia.
+Qed.
+
+Definition type_kind_ok (t : gio_gtype) (G : iograph) : Prop :=
+  io_kind G = gio_kind_of t /\ (t = TDag -> gio_is_dag G = true).
+
+(* write then read through the public entry points, every graph type, the three in-house formats *)
+Ltac table H := unfold gio_write_graph in H; cbn [gio_supported existsb gio_fmt_eqb app negb orb] in H.
+Ltac table_goal := unfold gio_read_graph; cbn [gio_supported existsb gio_fmt_eqb app negb orb gio_kind_of].
+
+Lemma same_but_name_eq G nm k : io_kind G = k -> mkIOG k nm (io_n G) (io_r G) (io_edges G) = same_but_name G nm.
+Proof. intros <-. reflexivity. Qed.
+
+Theorem graph_roundtrip hd t f G text :
+  gio_wf G -> type_kind_ok t G -> no_nl (io_name G) ->
+  gio_write_graph hd t f G = GOk text ->
+  exists nm, gio_read_graph hd t f text = GOk (same_but_name G nm).
+Proof.
+  intros Hwf [HK Hdag] Hname H.
+  assert (Hkn : kth_name_ok (io_name G)) by now apply kth_name_ok_line.
+  destruct t; cbn [gio_kind_of] in HK.
+  - (* simple *)
+    assert (HnB : io_kind G <> KBipartite) by congruence.
+    destruct f, hd; table H; try discriminate; inversion H; subst text; clear H; table_goal.
+    1,2: destruct (kth_roundtrip G Hwf HnB Hkn) as [nm E]; rewrite HK in E; rewrite E; cbn [gio_bind]; exists nm; now rewrite same_but_name_eq.
+    1,2: destruct (dimacs_roundtrip G Hwf HnB Hname) as [nm E]; rewrite HK in E; rewrite E; cbn [gio_bind]; exists nm; now rewrite same_but_name_eq.
+  - (* digraph *)
+    assert (HnB : io_kind G <> KBipartite) by congruence.
+    destruct f, hd; table H; try discriminate; inversion H; subst text; clear H; table_goal.
+    1,2: destruct (kth_roundtrip G Hwf HnB Hkn) as [nm E]; rewrite HK in E; rewrite E; cbn [gio_bind]; exists nm; now rewrite same_but_name_eq.
+    1,2: destruct (dimacs_roundtrip G Hwf HnB Hname) as [nm E]; rewrite HK in E; rewrite E; cbn [gio_bind]; exists nm; now rewrite same_but_name_eq.
+  - (* dag *)
+    assert (HnB : io_kind G <> KBipartite) by congruence. specialize (Hdag eq_refl).
+    assert (Hd : forall nm, gio_is_dag (mkIOG KDirected nm (io_n G) (io_r G) (io_edges G)) = true) by (intros nm; exact Hdag).
+    destruct f, hd; table H; try discriminate; inversion H; subst text; clear H; table_goal.
+    1,2: destruct (kth_roundtrip G Hwf HnB Hkn) as [nm E]; rewrite HK in E; rewrite E; cbn [gio_bind]; rewrite Hd; exists nm; now rewrite same_but_name_eq.
+    1,2: destruct (dimacs_roundtrip G Hwf HnB Hname) as [nm E]; rewrite HK in E; rewrite E; cbn [gio_bind]; rewrite Hd; exists nm; now rewrite same_but_name_eq.
+  - (* bipartite *)
+    destruct f, hd; table H; try discriminate; inversion H; subst text; clear H; table_goal.
+    1,2: destruct (kthb_roundtrip G Hwf HK Hkn) as [nm E]; rewrite E; cbn [gio_bind]; exists nm; now rewrite same_but_name_eq.
+    1,2: rewrite (matrix_roundtrip G Hwf HK); cbn [gio_bind]; exists []; now rewrite same_but_name_eq.
+Qed.
